@@ -111,8 +111,8 @@ def check_stream_forwarder(ctx, rule, handler, req_adt, step):
 
 # ------------------------------------------------------------------------------------------------------------------
 # the client side of the RPC layer (src/api.rs): a method of Doc / DocsApi evaluated with its parameters as named tokens
-def eval_client(f, path):
-    """returns (rendered result, [(rpc kind, rendered request)])"""
+def eval_client(f, path, closed=0):
+    """returns (rendered result, [(rpc kind, rendered request)]); `closed`: what the handle's closed flag reads"""
     from . import feval as E, coll
     b = f.body(path)
     sent = []
@@ -130,7 +130,16 @@ def eval_client(f, path):
             sent.append((name, E.describe(it.resolve(args[1]), f)))
             return E.Tok("fut:rpc")
         if name == "ensure_open":
-            return E.Ok(E.UNIT)
+            return E.Ok(E.UNIT) if not closed else E.Err(E.Tok("document-is-closed"))
+        if ("AtomicBool" in full or "atomic::Atomic" in full) and names and "closed" in names[0]:
+            if name in ("load", "swap", "fetch_or"):
+                return E.Int(1 if closed else 0)
+            if name == "store":
+                return E.UNIT
+            if name == "compare_exchange":
+                return E.Err(E.Int(1)) if closed else E.Ok(E.Int(0))
+        if name == "deref" and names and "closed" in names[0]:
+            return a_[0] if False else args[0]
         if name in ("as_ref", "to_vec", "into", "to_owned", "from", "to_bytes", "copy_from_slice") and names and names[0].startswith("arg."):
             return args[0]     # conversions of a parameter into the field's type carry the value
         return C.handle(kind, name, payload, site)
@@ -170,3 +179,21 @@ def check_client(ctx, rule, method, request, doc_from="self.doc"):
             detail = "fields %s" % pairs
     ctx.check(ok, rule, method, "client-sends[%s]" % request,
               "evaluated with its parameters as arg.*: sends %s, returns %s; %s; spec: one %s naming its own document (%s), each other field one of its own parameters" % (sent, got[:120], detail, request, doc_from), b.sp)
+
+
+def check_close_idempotent(ctx, rule):
+    """a Doc handle stands for one open request: closing it releases that one handle - closing it again (or closing a clone, which
+    shares the closed flag) must release nothing, or somebody else's handle is taken away and a removal that must be refused while
+    they hold the document goes through"""
+    f = ctx.facts
+    b = f.body("api::Doc::close")
+    ctx.touch(b)
+    for closed in (0, 1):
+        got, sent = eval_client(f, "api::Doc::close", closed=closed)
+        if closed:
+            ok = not sent and not got.startswith("UNSUPPORTED")
+            spec = "no request is sent"
+        else:
+            ok = got.startswith("Ok(") and [x[1] for x in sent] == ["CloseRequest(self.doc)"]
+            spec = "one close request for its own document"
+        ctx.check(ok, rule, "api::Doc::close", "close[handle-%s]" % ("already-closed" if closed else "open"), "returns %s, sends %s; spec: %s" % (got[:80], sent, spec), b.sp)
